@@ -361,6 +361,51 @@ def random_requests(rng, spec, p_targeted=0.6):
     return {"points": pts, "requests": out, "pattern": pattern}
 
 
+def interleaved_requests(rng, spec):
+    """History visiting 2-3 unrelated points in interleaved orders: executions without linearization, then
+    linearizations at a point that was left in between, the same request repeated at an already linearized point, and
+    a grown request at a revisited point.  Steps are requests with ``"op": "execute"`` or (default) linearize."""
+    ins, outs = process_io(spec["root"])
+    n_pts = int(rng.integers(2, 4))
+    pts = [random_point(rng, spec) for _ in range(n_pts)]
+
+    def sub(names):
+        k = int(rng.integers(1, len(names) + 1))
+        return sorted(rng.choice(names, size=k, replace=False).tolist())
+
+    def step(point, op="linearize", ins_=(), outs_=(), all_=False):
+        return {"op": op, "all": bool(all_), "ins": list(ins_), "outs": list(outs_), "point": int(point)}
+
+    first_all = rng.random() < 0.25
+    r_in, r_out = sub(ins), sub(outs)
+    steps = []
+    shape = str(rng.choice(["exec-exec-lin", "lin-lin-lin", "lin-exec-lin"], p=[0.45, 0.3, 0.25]))
+    order = list(rng.permutation(n_pts))
+    if shape == "exec-exec-lin":
+        steps += [step(p, "execute") for p in order]
+        steps.append(step(order[0], ins_=r_in, outs_=r_out, all_=first_all))
+    elif shape == "lin-lin-lin":
+        steps.append(step(order[0], ins_=r_in, outs_=r_out, all_=first_all))
+        steps += [step(p) if not first_all else step(p, all_=True) for p in order[1:]]
+    else:
+        steps.append(step(order[0], ins_=r_in, outs_=r_out, all_=first_all))
+        steps += [step(p, "execute") for p in order[1:]]
+    # come back: same request at the first point, at another one, then a grown request at a revisited point
+    steps.append(step(order[0], all_=first_all and rng.random() < 0.5, ins_=() if first_all else (), outs_=()))
+    steps.append(step(order[-1]))
+    if rng.random() < 0.6:
+        steps.append(step(order[0], ins_=sub(ins), outs_=sub(outs)))
+    if rng.random() < 0.3:
+        steps.append(step(order[int(rng.integers(n_pts))], all_=True))
+    if first_all:
+        # the differentiated sets must not be empty once 'all' is no longer asked
+        for st in steps:
+            if st["op"] == "linearize" and not st["all"] and not st["ins"]:
+                st["ins"], st["outs"] = r_in, r_out
+                break
+    return {"points": pts, "requests": steps, "pattern": "interleaved-" + shape}
+
+
 # =========================================================================== structure
 def overwrite_events(spec):
     """Re-productions of a live name inside the chains of a composition (numbers-free).
